@@ -476,7 +476,7 @@ def near_traces(res, trace_a, trace_b, cfg_a, cfg_b, prop=None):
 
 
 # trace specifications whose rejected event can be re-executed on its own (or re-recorded deterministically)
-EVENT_REPLAY_MODULES = ("Trace_Lanes", "Trace_Poly", "Trace_Rel", "Trace_C17", "Trace_C06")
+EVENT_REPLAY_MODULES = ("Trace_Lanes", "Trace_Poly", "Trace_Rel", "Trace_C17", "Trace_C06", "Trace_C16", "Trace_C15")
 
 
 def validate_trace(res, module, trace, label, prop=None, env_name="TRACE", cfg=None, case_extra=None):
@@ -576,7 +576,7 @@ def replay_event(res, path):
     evf = os.path.join(wd, "replay.event.json")
     json.dump(case["event"], open(evf, "w"))
     tr = os.path.join(wd, f"replay.{cfg}.ndjson")
-    if case.get("mode") in ("acc", "macc"):
+    if case.get("mode") in ("acc", "macc", "swz", "mask"):
         # a history is stateful: the whole deterministic recording is repeated and validated again
         p = run_bin(cfg, "rec", [case["mode"], tr, str(case["seed"]), str(case["draws"])])
     elif case.get("mode") in ("poly", "mat", "rel"):
